@@ -123,10 +123,10 @@ class Registry:
         from .strings import uf as _uf
 
         self.spec_natives["is_ascii"] = lambda it, a, k: VBool(_uf("is_ascii", STR, BOOL)((a[0].val if isinstance(a[0], VOpt) else a[0]).t))
-        self.spec_natives["effect_names"] = lambda it, a, k: VList(items=[VStr(z3.StringVal(e[0])) for e in it.path.effects if e[0] != "Fs"])
+        self.spec_natives["effect_names"] = lambda it, a, k: VList(items=[VStr(z3.StringVal(e[0])) for e in it.path.effects[getattr(it, "effects_base", 0):] if e[0] != "Fs"])
         def _effect_arg(it, a, k):
             i, j = vals.concrete_int(a[0]), vals.concrete_int(a[1])
-            effs = [e for e in it.path.effects if e[0] != "Fs"]
+            effs = [e for e in it.path.effects[getattr(it, "effects_base", 0):] if e[0] != "Fs"]
             if i is None or j is None or i >= len(effs) or j >= len(effs[i]):
                 return vals.BOTTOM
             return effs[i][j]
@@ -468,6 +468,12 @@ class Registry:
         return z3.Function(f"{v.cls}.__bool__", v.t.sort(), BOOL)(v.t)
 
     def opaque_iter(self, it, v):
+        if v.cls == "Chunks":
+            # iterating an abstract chunk list: one chunk holding all the bytes (chunking is not
+            # observable through write / join / hash updates)
+            from .models.dulwichmodels import joined
+
+            return VList(items=[joined(it, v)])
         oc = self._oc(v)
         if oc.iter is None:
             raise Unsupported(f"iteration over interface object {v.cls}")
